@@ -236,6 +236,12 @@ FACTORIES = [
     # the same call with non-default settings: key sorting with keys that cannot be ordered among themselves
     ('sorted-mixed-keys', lambda: WithSettings({"s": [], ('t', False): 1, 3: 1, None: 2, b'x': 3, 2.5: 0}, sort_dict_keys=True, width=200)),
     ('sorted-mixed-keys-nested', lambda: WithSettings([{1: 'a', 'one': 'b', (1,): 'c'}, {'z': {None: 1, 'n': 2, 0: 3}}], sort_dict_keys=True)),
+    # same-TYPE keys that cannot all be ordered among themselves, and keys of that type that can (out of order)
+    ('sorted-tuple-keys-unorderable', lambda: WithSettings({(1, 'a'): 1, (1, 2): 2, (0, 'z'): 3, (0, None): 4}, sort_dict_keys=True)),
+    ('sorted-tuple-keys-orderable', lambda: WithSettings({(2, 1): 'a', (1, 2): 'b', (0, 9): 'c', (1, 0): 'd', (4, 3): 'e', (3, 3): 'f'},
+                                                         sort_dict_keys=True)),
+    ('sorted-frozenset-keys', lambda: WithSettings({frozenset([1]): 1, frozenset([2, 3]): 2, frozenset(): 3}, sort_dict_keys=True)),
+    ('sorted-str-keys-nested-in-tuple-keyed', lambda: WithSettings({(2, 'b'): {'z': 1, 'a': 2}, (1, 'c'): {'y': 0, 'b': 1}}, sort_dict_keys=True)),
     ('sorted-comparable-keys', lambda: WithSettings({'b': 1, 'a': {'d': 1, 'c': 2}, 'c': 0}, sort_dict_keys=True)),
     ('narrow-truncated', lambda: WithSettings({'k': list(range(8)), 'j': ('x' * 30, 'y')}, width=20, max_seq_len=3, depth=2)),
     # comment texts with whitespace-only lines (an odd and an even number of them), and comments that must be wrapped
@@ -255,6 +261,9 @@ FACTORIES = [
     ('ledger', lambda: Ledger(1, Account('gus', 5))),
     ('sub-ledger', lambda: SubLedger(2, [Ledger(3)])),
 ]
+
+# entries whose key order depends on object identity (same-type keys that cannot be ordered)
+IDENTITY_ORDERED = {'sorted-tuple-keys-unorderable'}
 
 _ID = re.compile(r'id=\d+')
 PRISTINE_DEFERRED = dict(PP._DEFERRED_DISPATCH_BY_NAME)
